@@ -227,7 +227,7 @@ func init() {
 		})
 	})
 	engine.RegisterCheck("C12", func(r *engine.Run) {
-		r.Rule = "SEQ, differential: every history up to the stated depth over {writes whose values flip back and forth with references kept across property changes, delete/un-delete, legacy duplicate injection (a version byte-identical in content to its predecessor), deduplicating compaction with flush thresholds 1, 2, 100000}; on every compaction: latest view, lookups, current and point-in-time relationship queries and entity lookups at every recorded instant, latest-only feed must be unchanged and the full feed must equal the previous one minus exactly the versions identical to their immediate predecessor, survivors keep positions, a second compaction is a no-op. SCHED and CRASH parts: see parts"
+		r.Rule = "SEQ, differential: every history up to the stated depth over {writes whose values flip back and forth with references kept across property changes, delete/un-delete, legacy duplicate injection (a version byte-identical in content to its predecessor), batches that carry the same entity twice (second search), deduplicating compaction with flush thresholds 1, 2, 100000}; on every compaction: latest view, lookups, current and point-in-time relationship queries and entity lookups at every recorded instant, latest-only feed must be unchanged and the full feed must equal the previous one minus exactly the versions identical to their immediate predecessor, survivors keep positions, a second compaction is a no-op. SCHED and CRASH parts: see parts"
 		r.Assumptions = []string{"badger transactions are linearizable and commits atomic w.r.t. process kill", "legacy duplicates are injected with raw key deletes like the repository's own compaction tests do"}
 		pool := model.Pool(0)
 		pi := func(n string) int { return model.PoolIndex(pool, n) }
@@ -254,6 +254,25 @@ func init() {
 			}
 		}
 		engine.RunSeq(r, engine.SeqSpec{Name: "c12-seq", WorkerArgs: []string{"worker", "compact"}, Alphabet: raw, Depth: depth, Budget: time.Duration(budget) * time.Second})
+		{
+			// batches that carry the same entity twice (the first occurrence may equal the stored latest: two versions
+			// with one transaction time that differ only in their position inside the batch)
+			pair := func(c1, c2 string) server.VOp {
+				return server.VOp{K: "batch", DS: "A", Ents: []server.VEnt{{ID: "e1", C: pi(c1)}, {ID: "e1", C: pi(c2)}}}
+			}
+			pa := []server.VOp{w("v1"), w("v2"), pair("v1", "v2"), pair("v2", "v1"), pair("v1", "v1"), pair("v1r2", "v2r2"),
+				{K: "dup", Ents: []server.VEnt{{ID: "e1"}}}, {K: "compact", N: 1}, {K: "compact", N: 100000}}
+			var praw []json.RawMessage
+			for _, o := range pa {
+				b, _ := json.Marshal(o)
+				praw = append(praw, b)
+			}
+			pd, pb := 4, 60
+			if !r.Quick() {
+				pd, pb = 6, 1200
+			}
+			engine.RunSeq(r, engine.SeqSpec{Name: "c12-same-entity-twice-in-a-batch", WorkerArgs: []string{"worker", "compact"}, Alphabet: praw, Depth: pd, Budget: time.Duration(pb) * time.Second})
+		}
 		c12Sched(r)
 		c12Crash(r)
 	})
